@@ -8,6 +8,8 @@ pub struct Stdin {
     stdin: io::Stdin,
     /// Command must be stored somewhere to be referenced.
     buffer: String,
+    /// Byte which was read, but is not part of the character it was read for.
+    pending: Option<u8>,
 }
 
 impl Stdin {
@@ -15,16 +17,27 @@ impl Stdin {
         Self {
             stdin,
             buffer: String::with_capacity(INITIAL_BUFFER_CAPACITY),
+            pending: None,
         }
     }
 
     /// `None` indicates EOF.
     fn read_char(&mut self) -> Option<char> {
-        read_char_from_bytes(|| self.read_byte()).expect("uh oh")
+        // Input which is not UTF-8 is shown as such, it is no reason to crash
+        match read_char_from_bytes(|| self.read_byte()) {
+            Ok(ch) => ch,
+            Err(unread) => {
+                self.pending = unread;
+                Some(char::REPLACEMENT_CHARACTER)
+            }
+        }
     }
 
     /// `None` indicates EOF.
     fn read_byte(&mut self) -> Option<u8> {
+        if let Some(byte) = self.pending.take() {
+            return Some(byte);
+        }
         #[cfg(lace_verif)]
         if let Some(injected) = crate::verif::input_byte() {
             return injected;
@@ -41,7 +54,9 @@ impl Stdin {
     }
 }
 
-fn read_char_from_bytes<F>(mut next_byte: F) -> Result<Option<char>, ()>
+/// `Err` holds the byte which ended an incomplete character, if any: it is yet to be read as part
+/// of the next character.
+fn read_char_from_bytes<F>(mut next_byte: F) -> Result<Option<char>, Option<u8>>
 where
     F: FnMut() -> Option<u8>,
 {
@@ -54,25 +69,25 @@ where
 
     let utf8_position = Utf8Position::from(byte);
     let Some(utf8_len) = utf8_position.len() else {
-        return Err(());
+        return Err(None);
     };
 
     #[allow(clippy::needless_range_loop)]
     for i in 1..utf8_len {
         let Some(byte) = next_byte() else {
-            return Err(());
+            return Err(None);
         };
         if !Utf8Position::from(byte).is_continuation() {
-            return Err(());
+            return Err(Some(byte));
         }
         bytes[i] = byte;
     }
 
-    let string = std::str::from_utf8(&bytes[0..utf8_len]).map_err(|_| ())?;
+    let string = std::str::from_utf8(&bytes[0..utf8_len]).map_err(|_| None)?;
     let mut chars = string.chars();
-    let ch = chars.next().ok_or(())?;
+    let ch = chars.next().ok_or(None)?;
     if chars.next().is_some() {
-        return Err(());
+        return Err(None);
     }
     Ok(Some(ch))
 }
